@@ -73,7 +73,7 @@ class Sites:
         return None
 
 
-ORIGINAL_PHASES = {"orig_make", "orig_op", "orig_dump", "orig_query", "receiver_make"}
+ORIGINAL_PHASES = {"orig_make", "orig_op", "orig_dump", "orig_OK", "orig_view", "orig_query", "receiver_make"}
 
 
 def classify(f, sites):
@@ -151,15 +151,17 @@ def parse_journal(lines):
             for kv in t[2:]:
                 k, _, v = kv.partition("=")
                 sums[(t[1], k)] += int(v)
+        elif l.startswith("note|"):
+            sums[("note", l[5:])] += 1
         elif l.startswith("state|"):
             t = l.split("|", 2)
             states[t[1]].add(unesc(t[2]).strip())
         elif l.startswith("crash|"):
-            t = l.split("|") + ["", "", ""]
-            crashes.append({"signal": t[1], "case": int(t[2]) if t[2].lstrip("-").isdigit() else -1, "phase": t[3],
+            t = l.split("|") + ["", "", "", ""]
+            crashes.append({"signal": t[1], "case": int(t[2]) if t[2].lstrip("-").isdigit() else -1, "phase": t[3], "note": t[4],
                             "class": cur["class"] if cur else "?"})
         elif l.startswith("crash"):
-            crashes.append({"signal": l, "case": cur["id"] if cur else -1, "phase": "?", "class": cur["class"] if cur else "?"})
+            crashes.append({"signal": l, "case": cur["id"] if cur else -1, "phase": "?", "note": "", "class": cur["class"] if cur else "?"})
     return cases, fails, sums, states, crashes
 
 
@@ -184,7 +186,7 @@ def run(ctx):
         args = rp.get("harness_args") or ["--seed", str(rp.get("seed", ctx.seed)), "--first", str(rp["case"]), "--last", str(rp["case"] + 1)]
         n_cases = 1
     else:
-        n_cases = 16000 if quick else 400000
+        n_cases = 16000 if quick else 200000
         args = ["--seed", str(ctx.seed), "--first", "0", "--last", str(n_cases), "--len", "8" if quick else "12", "--batch", "200"]
     jpath, vpath = os.path.join(wd, "journal.txt"), os.path.join(wd, "verdicts.txt")
     rc, _, err = ctx.run([h] + args, stdout_path=jpath, timeout=3000)
@@ -231,12 +233,20 @@ def run(ctx):
             # the history itself died (on the object that was never loaded): a defect of the operation, not of dump/load
             crash_orig["%s|%s|%s" % (c["class"], c["phase"], c["signal"])] += 1
             continue
+        rec = {"site": "crash:" + c["class"], "tags": [c["phase"]]}
+        if c["class"] == "PIP_Problem" and c["phase"].startswith("twin_") and c["note"] == "loaded_pip_tree_has_decision_node" and c["signal"] == "SIGSEGV":
+            # the twin was loaded from a text whose solution tree has a decision node; it dies in an operation the original survives
+            rec = {"site": "PIP_Decision_Node::ascii_load", "tags": ["children_loaded_without_parent_pointer"]}
+        if ctx.match_known(rec) is not None:
+            kf_hist[rec["site"] + ":" + ",".join(rec["tags"])] += 1
+            ctx.violation("", {}, record=rec)
+            continue
         if len(seen_viol) < 12:
             seen_viol.add(("crash", c["case"]))
             ctx.violation("crash (%s) in phase '%s' of a dump/load history of %s: the original object survived the same step" % (c["signal"], c["phase"], c["class"]),
                           {"case": c["case"], "class": c["class"], "phase": c["phase"],
                            "harness_args": base_args + ["--first", str(c["case"]), "--last", str(c["case"] + 1)]},
-                          found_input=True, record={"site": "crash:" + c["class"], "tags": [c["phase"]]})
+                          found_input=True, record=rec)
 
     # ---- the model against the real text (driver verdicts)
     n_ok, mism, info = 0, [], ""
@@ -276,6 +286,7 @@ def run(ctx):
             nontrivial += 1
             if len(samples) < 3:
                 samples.append(journal[c["line"]: c["line"] + 6])
+    notes = {k: v for (cl, k), v in sums.items() if cl == "note"}
     rt = sum(v for (cl, k), v in sums.items() if k == "rt")
     lock = sum(v for (cl, k), v in sums.items() if k == "lock")
     harvested = collections.Counter(l.split("|", 1)[0] for l in journal if l.split("|", 1)[0] in ("st", "hdr", "bm", "dbm", "orm", "box", "enum"))
@@ -289,6 +300,8 @@ def run(ctx):
         "histories": len(cases), "histories_per_class": dict(per_class),
         "lockstep_operations_compared": lock,
         "round_trips_per_class": {cl: v for (cl, k), v in sums.items() if k == "rt"},
+        "original_objects_not_OK_skipped_OK_check": sum(v for (cl, k), v in sums.items() if k == "orig_not_ok"),
+        "notes_batches_in_which_seen": notes,
         "status_states_reached": {cl: sorted(v) for cl, v in states.items()},
         "status_states_reached_count": {cl: len(v) for cl, v in states.items()},
         "failures_histogram": dict(fail_hist.most_common(60)),
